@@ -528,6 +528,14 @@ master_selection(j_decompress_ptr cinfo)
   }
 #endif
 
+  /* The color converter and color quantizer of a previous image lived in that
+   * image's pool, which is gone.  Not every configuration creates new ones
+   * (merged upsampling does its own color conversion), and
+   * jpeg_skip_scanlines() looks at these pointers.
+   */
+  cinfo->cconvert = NULL;
+  cinfo->cquantize = NULL;
+
   /* Initialize dimensions and other stuff */
   jpeg_calc_output_dimensions(cinfo);
   prepare_range_limit_table(cinfo);
